@@ -89,6 +89,11 @@ func main() {
 	flag.StringVar(&repoDir, "repo", repoDir, "repository root")
 	flag.StringVar(&verifDir, "verif", verifDir, "verif root")
 	flag.Parse()
+	// go/packages looks `go` up through this process's PATH
+	os.Setenv("PATH", goBinDir+":"+os.Getenv("PATH"))
+	for _, kv := range [][2]string{{"GOFLAGS", "-mod=mod"}, {"GOPROXY", "off"}, {"GOSUMDB", "off"}, {"GOTOOLCHAIN", "local"}, {"GOWORK", "off"}} {
+		os.Setenv(kv[0], kv[1])
+	}
 	if *tier == "" {
 		*tier = os.Getenv("VERIF_TIER")
 	}
